@@ -19,7 +19,9 @@
 #include <limits.h>
 
 #define MAXV 16
-typedef struct { lp_value_t v; char name[80]; } pval;
+/* boxed: blo/bhi is a refined isolating interval of an algebraic v (free of integers and of other pool values) inside which the
+   surrogate lives; v itself may carry the unrefined interval the root isolation produced (end points at integers) */
+typedef struct { lp_value_t v; char name[80]; int boxed; lp_dyadic_rational_t blo, bhi; } pval;
 
 /* print a value through the pool (surrogates for algebraic numbers) */
 static const pval* cur_pool; static int cur_npool;
@@ -103,6 +105,20 @@ static void observe_pair(const lp_feasibility_set_t* a, const lp_feasibility_set
   }
 }
 
+static void observe_pick(const lp_feasibility_set_t* a) {
+  lp_value_t v; lp_value_construct_none(&v);
+  sb_begin("fset", "pick"); sb_sp(); sb_fset(a); sb_arrow();
+  lp_feasibility_set_pick_value(a, &v);
+  /* report: membership as answered by the library for its own pick, integrality, and the value when rational */
+  sb_sp(); sb_long(lp_feasibility_set_contains(a, &v)); sb_sp(); sb_long(lp_value_is_integer(&v)); sb_sp();
+  { int has_alg = 0; for (int i = 0; i < cur_npool; ++i) if (cur_pool[i].v.type == LP_VALUE_ALGEBRAIC) has_alg = 1;
+    sb_long(has_alg); sb_sp(); }
+  if (lp_value_is_rational(&v)) { lp_rational_t q; lp_rational_construct(&q); lp_value_get_rational(&v, &q); sb_mpq(&q); lp_rational_destruct(&q); }
+  else sb_str("irrational");
+  sb_emit();
+  lp_value_destruct(&v);
+}
+
 static void observe_single(const lp_feasibility_set_t* a, const pval* probes, int nprobes) {
   sb_begin("fset", "isempty"); sb_sp(); sb_fset(a); sb_arrow(); sb_sp(); sb_long(lp_feasibility_set_is_empty(a)); sb_emit();
   sb_begin("fset", "isfull"); sb_sp(); sb_fset(a); sb_arrow(); sb_sp(); sb_long(lp_feasibility_set_is_full(a)); sb_emit();
@@ -120,42 +136,52 @@ static void observe_single(const lp_feasibility_set_t* a, const pval* probes, in
     sb_begin("fset", "tointerval"); sb_sp(); sb_fset(a); sb_arrow();
     lp_feasibility_set_to_interval(a, &I); sb_sp(); sb_vi(&I); sb_emit();
     lp_interval_destruct(&I);
-    lp_value_t v; lp_value_construct_none(&v);
-    sb_begin("fset", "pick"); sb_sp(); sb_fset(a); sb_arrow();
-    lp_feasibility_set_pick_value(a, &v);
-    /* report: membership as answered by the library for its own pick, integrality, and the value when rational */
-    sb_sp(); sb_long(lp_feasibility_set_contains(a, &v)); sb_sp(); sb_long(lp_value_is_integer(&v)); sb_sp();
-    { int has_alg = 0; for (int i = 0; i < cur_npool; ++i) if (cur_pool[i].v.type == LP_VALUE_ALGEBRAIC) has_alg = 1;
-      sb_long(has_alg); sb_sp(); }
-    if (lp_value_is_rational(&v)) { lp_rational_t q; lp_rational_construct(&q); lp_value_get_rational(&v, &q); sb_mpq(&q); lp_rational_destruct(&q); }
-    else sb_str("irrational");
-    sb_emit();
-    lp_value_destruct(&v);
+    observe_pick(a);
+    /* every interval on its own: a neighbour holding an integer must not hide a poor pick from this one */
+    if (a->size > 1) for (size_t i = 0; i < a->size; ++i) {
+      lp_feasibility_set_t* one = lp_feasibility_set_new_internal(1);
+      lp_interval_construct_copy(one->intervals, a->intervals + i); one->size = 1;
+      observe_pick(one);
+      sb_begin("fset", "containsint"); sb_sp(); sb_fset(one); sb_arrow(); sb_sp(); sb_long(lp_feasibility_set_contains_int(one)); sb_emit();
+      sb_begin("fset", "countint"); sb_sp(); sb_fset(one); sb_arrow();
+      { long c = lp_feasibility_set_count_int(one); sb_sp(); if (c == LONG_MAX) sb_str("max"); else sb_long(c); } sb_emit();
+      lp_feasibility_set_delete(one);
+    }
   }
 }
 
 /* ---------- pools ---------- */
-static void pv_int(pval* p, long z) { lp_integer_t i; lp_integer_construct_from_int(lp_Z, &i, z); lp_value_construct(&p->v, LP_VALUE_INTEGER, &i); lp_integer_destruct(&i); snprintf(p->name, sizeof p->name, "%ld", z); }
+static void pv_int(pval* p, long z) { lp_integer_t i; lp_integer_construct_from_int(lp_Z, &i, z); lp_value_construct(&p->v, LP_VALUE_INTEGER, &i); lp_integer_destruct(&i); snprintf(p->name, sizeof p->name, "%ld", z); p->boxed = 0; }
 static void pv_rat(pval* p, long n, unsigned long d) {
   lp_rational_t q; lp_rational_construct_from_int(&q, n, d); lp_value_construct(&p->v, LP_VALUE_RATIONAL, &q);
-  sb_reset(); sb_mpq(&q); snprintf(p->name, sizeof p->name, "%s", sb_buf); lp_rational_destruct(&q); }
+  sb_reset(); sb_mpq(&q); snprintf(p->name, sizeof p->name, "%s", sb_buf); lp_rational_destruct(&q); p->boxed = 0; }
 static void pv_dy(pval* p, long n, unsigned long e) {
   lp_dyadic_rational_t q; lp_dyadic_rational_construct_from_int(&q, n, e); lp_value_construct(&p->v, LP_VALUE_DYADIC_RATIONAL, &q);
   lp_rational_t r; lp_rational_construct_from_dyadic(&r, &q); sb_reset(); sb_mpq(&r); snprintf(p->name, sizeof p->name, "%s", sb_buf);
-  lp_rational_destruct(&r); lp_dyadic_rational_destruct(&q); }
+  lp_rational_destruct(&r); lp_dyadic_rational_destruct(&q); p->boxed = 0; }
 
 /* algebraic numbers: all real roots of a few polynomials */
-#define NALG 9
-static lp_value_t alg_vals[NALG]; static int nalg = 0;
+#define NAPOLY 7
+static const int polys[NAPOLY][5] = { { -2, 0, 1, 0, 0 }, { -3, 0, 1, 0, 0 }, { -1, -1, 1, 0, 0 }, { -2, 0, 0, 1, 0 }, { 1, 0, -4, 0, 1 }, { -5, 0, 1, 0, 0 }, { -10, 0, 1, 0, 0 } };
+static const int degs[NAPOLY] = { 2, 2, 2, 3, 4, 2, 2 };
+/* root i of polynomial k as the root isolation returns it (unrefined isolating interval) */
+static void fresh_alg(int k, int i, lp_value_t* out) {
+  lp_upolynomial_t* f = lp_upolynomial_construct_from_int(lp_Z, degs[k], polys[k]);
+  lp_algebraic_number_t roots[8]; size_t nr = 0;
+  lp_upolynomial_roots_isolate(f, roots, &nr);
+  lp_value_construct(out, LP_VALUE_ALGEBRAIC, &roots[i]);
+  for (size_t j = 0; j < nr; ++j) lp_algebraic_number_destruct(&roots[j]);
+  lp_upolynomial_delete(f);
+}
+#define NALG 16
+static lp_value_t alg_vals[NALG]; static int alg_poly[NALG], alg_root[NALG]; static int nalg = 0;
 static void build_algebraic(void) {
-  static const int polys[][5] = { { -2, 0, 1, 0, 0 }, { -3, 0, 1, 0, 0 }, { -1, -1, 1, 0, 0 }, { -2, 0, 0, 1, 0 }, { 1, 0, -4, 0, 1 } };
-  static const int degs[] = { 2, 2, 2, 3, 4 };
-  for (int k = 0; k < 5 && nalg < NALG; ++k) {
+  for (int k = 0; k < NAPOLY && nalg < NALG; ++k) {
     lp_upolynomial_t* f = lp_upolynomial_construct_from_int(lp_Z, degs[k], polys[k]);
     lp_algebraic_number_t roots[8]; size_t nr = 0;
     lp_upolynomial_roots_isolate(f, roots, &nr);
     for (size_t i = 0; i < nr; ++i) {
-      if (nalg < NALG) { lp_value_construct(&alg_vals[nalg], LP_VALUE_ALGEBRAIC, &roots[i]); nalg++; }
+      if (nalg < NALG) { lp_value_construct(&alg_vals[nalg], LP_VALUE_ALGEBRAIC, &roots[i]); alg_poly[nalg] = k; alg_root[nalg] = (int)i; nalg++; }
       lp_algebraic_number_destruct(&roots[i]);
     }
     lp_upolynomial_delete(f);
@@ -163,7 +189,11 @@ static void build_algebraic(void) {
 }
 /* surrogate of an irrational algebraic value: a dyadic inside its isolating interval, after refining until no
  * other pool value and no integer lies in the closed isolating interval */
-static int pv_alg(pval* p, const lp_value_t* av, const pval* others, int nothers) {
+static const lp_dyadic_rational_t* box_lo(const pval* p) { return p->boxed ? &p->blo : &p->v.value.a.I.a; }
+static const lp_dyadic_rational_t* box_hi(const pval* p) { return p->boxed ? &p->bhi : &p->v.value.a.I.b; }
+static int pv_alg(pval* p, int ai, const pval* others, int nothers) {
+  const lp_value_t* av = &alg_vals[ai];
+  p->boxed = 0;
   lp_value_construct_copy(&p->v, av);
   lp_algebraic_number_t* a = &p->v.value.a;
   for (int it = 0; it < 200; ++it) {
@@ -174,7 +204,7 @@ static int pv_alg(pval* p, const lp_value_t* av, const pval* others, int nothers
       if (others[j].v.type == LP_VALUE_ALGEBRAIC && lp_value_cmp(&others[j].v, av) == 0) { ok = -1; break; }
       if (others[j].v.type == LP_VALUE_ALGEBRAIC) {
         const lp_algebraic_number_t* o = &others[j].v.value.a;
-        if (!o->I.is_point && !lp_dyadic_interval_disjoint(&o->I, &a->I)) ok = 0;
+        if (!o->I.is_point && !(lp_dyadic_rational_cmp(box_hi(&others[j]), &a->I.a) < 0 || lp_dyadic_rational_cmp(&a->I.b, box_lo(&others[j])) < 0)) ok = 0;
       } else if (lp_value_cmp(&l, &others[j].v) <= 0 && lp_value_cmp(&others[j].v, &u) <= 0) ok = 0;
     }
     lp_value_destruct(&l); lp_value_destruct(&u);
@@ -191,12 +221,16 @@ static int pv_alg(pval* p, const lp_value_t* av, const pval* others, int nothers
         lp_rational_t r; lp_rational_construct_from_dyadic(&r, &m); sb_reset(); sb_mpq(&r);
         snprintf(p->name, sizeof p->name, "%s", sb_buf);
         lp_rational_destruct(&r); lp_dyadic_rational_destruct(&m);
+        if (chance(50)) {   /* keep the box, hand the library the unrefined number */
+          p->boxed = 1; lp_dyadic_rational_construct_copy(&p->blo, &a->I.a); lp_dyadic_rational_construct_copy(&p->bhi, &a->I.b);
+          lp_value_destruct(&p->v); fresh_alg(alg_poly[ai], alg_root[ai], &p->v);
+        }
         return 1;
       }
     }
     lp_algebraic_number_refine(a);
     /* the other algebraic numbers may need refinement too */
-    for (int j = 0; j < nothers; ++j) if (others[j].v.type == LP_VALUE_ALGEBRAIC) lp_algebraic_number_refine_const(&others[j].v.value.a);
+    for (int j = 0; j < nothers; ++j) if (others[j].v.type == LP_VALUE_ALGEBRAIC && !others[j].boxed) lp_algebraic_number_refine_const(&others[j].v.value.a);
   }
   return 0;
 }
@@ -212,36 +246,37 @@ static int random_pool(pval* pool, int k) {
     else if (t < 55) pv_rat(&p, rnd_in(-9, 12), 1 + rnd(4));
     else if (t < 70) pv_dy(&p, rnd_in(-9, 12), rnd(3));
     else {
-      if (!nalg || !pv_alg(&p, &alg_vals[rnd(nalg)], pool, n)) { if (nalg) lp_value_destruct(&p.v); continue; }
+      if (!nalg || !pv_alg(&p, (int)rnd(nalg), pool, n)) { if (nalg) lp_value_destruct(&p.v); continue; }
     }
     int dup = 0;
     for (int i = 0; i < n; ++i) if (lp_value_cmp(&pool[i].v, &p.v) == 0) dup = 1;
     /* a rational value sitting inside the isolating interval of an earlier algebraic one would break its surrogate */
     if (!dup && p.v.type != LP_VALUE_ALGEBRAIC) for (int i = 0; i < n; ++i) if (pool[i].v.type == LP_VALUE_ALGEBRAIC) {
-      const lp_algebraic_number_t* o = &pool[i].v.value.a; lp_value_t l, u;
-      lp_value_construct(&l, LP_VALUE_DYADIC_RATIONAL, &o->I.a); lp_value_construct(&u, LP_VALUE_DYADIC_RATIONAL, &o->I.b);
+      lp_value_t l, u;
+      if (pool[i].v.value.a.I.is_point) continue;
+      lp_value_construct(&l, LP_VALUE_DYADIC_RATIONAL, box_lo(&pool[i])); lp_value_construct(&u, LP_VALUE_DYADIC_RATIONAL, box_hi(&pool[i]));
       if (lp_value_cmp(&l, &p.v) <= 0 && lp_value_cmp(&p.v, &u) <= 0) dup = 1;
       lp_value_destruct(&l); lp_value_destruct(&u);
     }
-    if (dup) { lp_value_destruct(&p.v); continue; }
+    if (dup) { lp_value_destruct(&p.v); if (p.boxed) { lp_dyadic_rational_destruct(&p.blo); lp_dyadic_rational_destruct(&p.bhi); } continue; }
     pool[n++] = p;
   }
   qsort(pool, n, sizeof(pval), pv_cmp);
   return n;
 }
-static void free_pool(pval* pool, int n) { for (int i = 0; i < n; ++i) lp_value_destruct(&pool[i].v); }
+static void free_pool(pval* pool, int n) { for (int i = 0; i < n; ++i) { lp_value_destruct(&pool[i].v); if (pool[i].boxed) { lp_dyadic_rational_destruct(&pool[i].blo); lp_dyadic_rational_destruct(&pool[i].bhi); } } }
 
 /* probes: every pool value plus mid-points between neighbours and two outer points */
 static int make_probes(const pval* pool, int k, pval* probes) {
   int n = 0;
-  for (int i = 0; i < k; ++i) { lp_value_construct_copy(&probes[n].v, &pool[i].v); snprintf(probes[n].name, sizeof probes[n].name, "%s", pool[i].name); n++; }
+  for (int i = 0; i < k; ++i) { lp_value_construct_copy(&probes[n].v, &pool[i].v); probes[n].boxed = 0; snprintf(probes[n].name, sizeof probes[n].name, "%s", pool[i].name); n++; }
   for (int i = 0; i + 1 < k; ++i) {
-    lp_value_construct_none(&probes[n].v);
+    lp_value_construct_none(&probes[n].v); probes[n].boxed = 0;
     { /* stay outside the isolating intervals of algebraic neighbours: their surrogates live there */
       lp_value_t lo, hi;
-      if (pool[i].v.type == LP_VALUE_ALGEBRAIC && !pool[i].v.value.a.I.is_point) lp_value_construct(&lo, LP_VALUE_DYADIC_RATIONAL, &pool[i].v.value.a.I.b);
+      if (pool[i].v.type == LP_VALUE_ALGEBRAIC && !pool[i].v.value.a.I.is_point) lp_value_construct(&lo, LP_VALUE_DYADIC_RATIONAL, box_hi(&pool[i]));
       else lp_value_construct_copy(&lo, &pool[i].v);
-      if (pool[i + 1].v.type == LP_VALUE_ALGEBRAIC && !pool[i + 1].v.value.a.I.is_point) lp_value_construct(&hi, LP_VALUE_DYADIC_RATIONAL, &pool[i + 1].v.value.a.I.a);
+      if (pool[i + 1].v.type == LP_VALUE_ALGEBRAIC && !pool[i + 1].v.value.a.I.is_point) lp_value_construct(&hi, LP_VALUE_DYADIC_RATIONAL, box_lo(&pool[i + 1]));
       else lp_value_construct_copy(&hi, &pool[i + 1].v);
       lp_value_get_value_between(&lo, 1, &hi, 1, &probes[n].v);
       lp_value_destruct(&lo); lp_value_destruct(&hi);
